@@ -204,6 +204,12 @@ func init() {
 		c04NoEarlySuccess(c)
 		c04EverySection(c)
 		c04ReadAfterDelete(c)
+		// (no-underflow) the helpers that store and undo a block compute with block numbers in uint64: `blockNumber-1` and the
+		// like must be guarded against block 0 (seeded change C04-I asks the CASM metadata for "the block before" without the
+		// guard: at genesis the argument wraps to MaxUint64 and every class looks as if it had been declared earlier)
+		c.usubRule("no-underflow", func(fn *ssa.Function) bool {
+			return pkgRelOf(fn) == "blockchain/statebackend" && !strings.HasSuffix(p.Pos(fnPos(fn)), "_test.go") && !p.InFixture(fnPos(fn))
+		}, nil)
 		ci := p.caps()
 		r := p.newResolver()
 		nilCfg := nilConfigTrieDB(c, "inverse-buckets")
